@@ -1,17 +1,3 @@
 import Driver.OpsAlign
-open Driver
-
-def handle (a : Array String) : String :=
-  if a.size == 0 then "bad-op" else
-  match opsAlign a with
-  | some r => r
-  | none => "bad-op"
-
-partial def loop (h : IO.FS.Stream) : IO Unit := do
-  let line ← h.getLine
-  if line.isEmpty then return ()
-  let toks := ((line.trimAscii.toString.splitOn " ").filter (· ≠ "")).toArray
-  IO.println (handle toks)
-  loop h
-
-def main : IO Unit := do loop (← IO.getStdin)
+import Driver.Loop
+def main : IO Unit := Driver.runLoop Driver.opsAlign
